@@ -1,4 +1,5 @@
 import Proofs.HeapLemmas
+import Proofs.MapOrderLemmas
 import Proofs.ArrLemmas
 /-!
 # The filter bodies and `values.Convert(·, []any)` on the slice memory refine `Filters/Arr.lean` / `Convert.lean`
@@ -110,7 +111,7 @@ def uniqP (xs : List GoVal) : Res Cause (List GoVal) :=
   if xs.any hasPtr then .unmodelled "uniq: pointer identity" else .ok (uniqF xs)
 
 theorem collectP_uniq (xs : List GoVal) : ∀ seen : List String,
-    collectP uniqStep seen xs = if xs.any hasPtr then .unmodelled "uniq: pointer identity" else .ok (uniqOn GoVal.enc seen xs) := by
+    collectP uniqStep seen xs = if xs.any hasPtr then .unmodelled "uniq: pointer identity" else .ok (uniqOn MapOrder.canonEnc seen xs) := by
   induction xs with
   | nil => intro seen; rfl
   | cons x xs ih =>
@@ -120,11 +121,11 @@ theorem collectP_uniq (xs : List GoVal) : ∀ seen : List String,
     · simp [hp, Res.bind]
     · have hp' : hasPtr x = false := by simpa using hp
       simp only [hp', Bool.false_eq_true, if_false, Bool.false_or]
-      by_cases hc : seen.contains x.enc = true
+      by_cases hc : seen.contains (MapOrder.canonEnc x) = true
       · simp only [hc, if_true, Res.bind, ih seen, uniqOn]
         cases xs.any hasPtr <;> simp
-      · have hc' : seen.contains x.enc = false := by simpa using hc
-        simp only [hc', Bool.false_eq_true, if_false, Res.bind, ih (x.enc :: seen), uniqOn]
+      · have hc' : seen.contains (MapOrder.canonEnc x) = false := by simpa using hc
+        simp only [hc', Bool.false_eq_true, if_false, Res.bind, ih (MapOrder.canonEnc x :: seen), uniqOn]
         cases xs.any hasPtr <;> simp
 
 theorem uniqH_refines {st : Store} {a : Slice} (hw : Slice.wf st a) :
@@ -548,6 +549,10 @@ theorem convert_anys_shape {v w : GoVal} (h : convert v .anys = .ok w) : ∃ ys,
        · split at h
          · cases h
          · exact ⟨_, (Res.ok.inj h).symm⟩)
+    | (next kvs _ =>
+        rcases MapOrder.sortedMapEntries_cases (ε := Cause) kvs with ⟨_, h1⟩ | ⟨_, w, h1⟩ <;> rw [h1] at h
+        · exact ⟨_, (Res.ok.inj h).symm⟩
+        · cases h)
 
 /-- the pure conversion of a receiver (or of `concat`'s argument): nil is the empty array -/
 def convAnysP (g : GoVal) : Res Cause (List GoVal) :=
